@@ -150,3 +150,9 @@ fn len_len(len: usize) -> usize {
         1
     }
 }
+
+/// Verification hook (`cfg(kani)` only): public wrapper over the private `len_len`.
+#[cfg(kani)]
+pub fn verif_len_len(len: usize) -> usize {
+    len_len(len)
+}
